@@ -748,7 +748,7 @@ class TransactionBuilder:
                 self.outputs,
                 change_address,
                 precise_fee=True,
-                respect_min_utxo=not merge_change,
+                respect_min_utxo=change_output_index is None,
             )
 
             _merge_changes(changes)
@@ -764,7 +764,7 @@ class TransactionBuilder:
                 self.outputs,
                 change_address,
                 precise_fee=True,
-                respect_min_utxo=not merge_change,
+                respect_min_utxo=change_output_index is None,
             )
 
             _merge_changes(changes)
